@@ -101,6 +101,7 @@ def _load():
     from .oracles.c09 import C09
     from .oracles.c10 import C10
     from .oracles.c11 import C11
+    from .oracles.c12 import C12
 
     wide = profile()
     faulty = profile(f_zero=0.8, f_infarr=0.3, f_batch0=0.8, qcap=0.7, sched=0.35, renege=0.4, batch=0.4)
@@ -153,6 +154,13 @@ def _load():
     register(Profile("C11", [C11], [(1, pre)],
                      "distinct history digest; non-trivial = >=1 pre-emption (probe: the same customer pre-empted twice)",
                      B(40000, 400000)))
+    tt = profile(n=[1, 1, 2], k=[1, 2], sched=0.75, slot=0.25, inf=0.0, zero=0.0, ps=0.0, preempt=0.0, prio=0.5, qcap=0.0, syscap=0.0,
+                 exact=0.0, renege=0.15, jockey=0.0, batch=0.3, ccm=0.1, cct=0.0, horizon=[12.0, 30.0, 40.0],
+                 sched_pre_opts=[False, False, "resume", "restart", "resample", "reroute"])
+    tt["slot"] = 0.9     # slot is tried only where sched was not drawn
+    register(Profile("C12", [C12], [(1, tt)],
+                     "distinct history digest; non-trivial = >=1 shift end with a service in flight or >=1 slot with more customers waiting than its size",
+                     B(30000, 300000)))
     cap = profile(qcap=0.9, qcap_vals=[INF, 0, 0, 1, 2, 3], syscap=0.4, batch=0.5, baulk=0.4, renege=0.3, jockey=0.5, n=[1, 2, 2, 3], **NOREROUTE)
     register(Profile("C06", [C06], [(1, cap)],
                      "distinct history digest; non-trivial = >=1 rejection and >=1 admission into a node holding capacity-1",
